@@ -55,8 +55,11 @@ def feat_table(feats):   # feats: list of (id, [(value,label)...])  v2
         for v,l in st: sets+=be16(v,l)
     return hdr+recs+sets
 def build_pass(P, spec, pass_off):
-    rules=P['rules']; pre=P.get('pre',0); ng=len(spec['glyphs'])
-    pats=[[frozenset(spec['classes'][c]) for c in r['pat']] for r in rules]
+    rules=P['rules']; ng=len(spec['glyphs'])
+    rpre=[r.get('pre',P.get('pre',0)) for r in rules]; pre=max(rpre); minpre=min(rpre)
+    ANY=frozenset(range(ng))
+    upats=[[frozenset(spec['classes'][c]) for c in r['pat']] for r in rules]
+    pats=[[ANY]*(pre-rp)+up for rp,up in zip(rpre,upats)]
     # columns by membership signature
     allsets=sorted({s for p in pats for s in p}, key=lambda s:sorted(s))
     sig={}; 
@@ -67,8 +70,12 @@ def build_pass(P, spec, pass_off):
     def cols_of_set(s): return {col_of[g] for g in s}
     # DFA
     start=frozenset((ri,0) for ri in range(len(rules)))
+    starts=[frozenset((ri,k) for ri in range(len(rules)) if pre-rpre[ri]>=k) for k in range(pre-minpre+1)]
+    assert starts[0]==start
     states={start:None}; order=[start]; trans={}
     q=[start]
+    for S_ in starts[1:]:
+        if S_ not in states: states[S_]=None; order.append(S_); q.append(S_)
     while q:
         S=q.pop(0)
         for c in range(len(cols)):
@@ -78,7 +85,7 @@ def build_pass(P, spec, pass_off):
             trans[(S,c)]=T
     acc=lambda S:[ri for (ri,pos) in sorted(S) if pos==len(pats[ri])]
     istr=lambda S:any((S,c) in trans for c in range(len(cols)))
-    g1=[S for S in order if istr(S) and not acc(S)]; g2=[S for S in order if istr(S) and acc(S)]; g3=[S for S in order if not istr(S) and acc(S)]
+    g1=[S for S in order if (istr(S) or S in starts) and not acc(S)]; g2=[S for S in order if istr(S) and acc(S)]; g3=[S for S in order if not istr(S) and acc(S)]
     if start in g2: raise ValueError('start state accepting (empty pattern)')
     g1.remove(start); g1.insert(0,start)
     allst=g1+g2+g3; idx={S:i for i,S in enumerate(allst)}
@@ -92,23 +99,23 @@ def build_pass(P, spec, pass_off):
     omap=[0]; rmap=[]
     for S in g2+g3:
         rmap+=acc(S); omap.append(len(rmap))
-    body+=be16(*omap)+be16(*rmap)+u8(pre,pre)+be16(0)
-    body+=be16(*[len(p) for p in pats])+u8(*[pre]*len(rules))+u8(0)
+    body+=be16(*omap)+be16(*rmap)+u8(minpre,pre)+be16(*[idx[S_] for S_ in starts])
+    body+=be16(*[len(p) for p in upats])+u8(*rpre)+u8(0)
     # code
     pcode=b''
     ccodes=[]; acodes=[]
-    for r,p in zip(rules,pats):
+    for r,p,pre_r in zip(rules,upats,rpre):
         L=len(p); cc=b''; n=0
         for k,e in enumerate(r.get('cons',[None]*L)):
             if e is None: continue
-            b_=emit_expr(e); cc+=u8(OP['CNTXT_ITEM'],k-pre,len(b_))+b_
+            b_=emit_expr(e); cc+=u8(OP['CNTXT_ITEM'],k-pre_r,len(b_))+b_
             if n: cc+=u8(OP['AND'])
             n+=1
         if cc: cc+=u8(OP['POP_RET'])
         ccodes.append(cc)
         ac=b''
-        for k in range(pre,L):
-            acts=r['acts'][k-pre]
+        for k in range(pre_r,L):
+            acts=r['acts'][k-pre_r]
             if acts and acts[0][0]=='insert':      # an inserted slot is an extra output item placed before input item k
                 ac+=emit_action(acts[0])
                 i_=1
